@@ -3,7 +3,7 @@
 
     rocfl's validator deserialises id, digestAlgorithm, head, contentDirectory,
     created, the user address, the version names, the digests and the content /
-    logical path arrays of the manifest, state and fixity blocks as *borrowed*
+    logical path arrays of the manifest and state blocks as *borrowed*
     [&str] (src/ocfl/validate/serde.rs:171,217,262,288,554,724,897,901,1010,1012,1191);
     serde_json can lend a string only when its token has no backslash
     (read.rs:455-467, [Json.read_borrowed]).  An inventory in which one of these
@@ -47,8 +47,7 @@ Definition esc_inventory (j : jv) : bool :=
   || existsb esc_val (rvals (b "contentDirectory") j)
   || existsb esc_block (rvals (b "manifest") j)
   || existsb (fun vs => existsb (fun kv => has_escape (fst kv) || esc_version (snd kv)) (rmem vs))
-             (rvals (b "versions") j)
-  || existsb (fun fx => existsb (fun kv => esc_block (snd kv)) (rmem fx)) (rvals (b "fixity") j).
+             (rvals (b "versions") j).
 
 (** the inventory text spells a borrowed position with an escape sequence *)
 Definition c07_escaped_string (inv : bytes) : bool :=
